@@ -29,9 +29,10 @@ package main
 // T (hash -> parent, writes; the first effective commit of a hash wins) and of the pending writes of every block /
 // transaction cache. The expected answer of a lookup is the first entry for the key in: the context's own pending
 // writes (transaction, then its block), then the chain hash, parent(hash), ... through T where a block that is not in
-// T ends the chain; for a block cache the chain starts at its parent, or at the block itself once that block is in T
-// (literal reading: the block's own committed writes are on its chain — the code answers from the parent's view
-// instead, open finding C06-blockcache-after-commit).
+// T ends the chain; for a block cache the chain starts at its parent while the block is being built and at the block
+// itself once this block cache's Commit has taken effect (its own committed writes are on its chain; fixed defect
+// corpus/C06/fixed_blockcache_after_commit.ops). A second, never effective block cache for an already committed hash
+// keeps the parent's view (one hash names one block: assumption).
 // C06: a hit must carry exactly that value (hit on a tombstone or on "nothing" is a failure); misses are allowed.
 
 import (
@@ -244,8 +245,6 @@ type scExpect struct {
 	found bool
 	src   string // "txn", "blk", "own-committed", "chain"
 	dist  int
-	// literal reading of the property differs from the code's notion of the context (block cache used after its commit)
-	postCommit bool
 }
 
 func (w *scWorld) expectState(key, hash string) scExpect {
@@ -257,11 +256,9 @@ func (w *scWorld) expectBlock(b *scBH, key string) scExpect {
 	if e, ok := b.pending[key]; ok {
 		return scExpect{e: e, found: true, src: "blk"}
 	}
-	if _, committed := w.T[b.hash]; committed {
-		// literal reading of the property: the block of this block cache is itself committed (by this handle or by a
-		// second block cache for the same hash), so its own committed writes are on the context's chain
+	if b.effective {
+		// this block cache has been committed: the block's own committed writes are on the context's chain
 		x := w.expectState(key, b.hash)
-		x.postCommit = true
 		if x.src == "chain" && x.dist == 0 {
 			x.src = "own-committed"
 		}
@@ -270,6 +267,14 @@ func (w *scWorld) expectBlock(b *scBH, key string) scExpect {
 	x := w.expectState(key, b.prev)
 	x.dist++
 	return x
+}
+
+// base is the block at which the block cache's fallback lookup is issued
+func (b *scBH) base() string {
+	if b.effective {
+		return b.hash
+	}
+	return b.prev
 }
 
 func (w *scWorld) expectTxn(t *scTH, key string) scExpect {
@@ -287,10 +292,7 @@ func (w *scWorld) withinCapacity(key string) bool {
 	return len(w.entryBlocks[key]) <= scCapPerKey && w.commits <= scMaxDepth
 }
 
-const (
-	findingEviction   = "C06-capacity-eviction"
-	findingPostCommit = "C06-blockcache-after-commit"
-)
+const findingEviction = "C06-capacity-eviction"
 
 // judge compares a lookup result with the expectation.
 func (w *scWorld) judge(out string, x scExpect, key, stateBlk string, throughState bool) {
@@ -310,10 +312,8 @@ func (w *scWorld) judge(out string, x scExpect, key, stateBlk string, throughSta
 				what = "value " + x.e.val + " (from " + x.src + ")"
 			}
 			w.fail("lookup returned %q but the block tree determines %s", out, what)
-			// narrow matchers of the open known findings
-			if x.postCommit {
-				w.setFinding(findingPostCommit)
-			} else if throughState && len(w.entryBlocks[key]) > scCapPerKey {
+			// narrow matcher of the open known finding
+			if throughState && len(w.entryBlocks[key]) > scCapPerKey {
 				w.setFinding(findingEviction)
 			} else {
 				w.setFinding("")
@@ -340,7 +340,7 @@ func (w *scWorld) judge(out string, x scExpect, key, stateBlk string, throughSta
 			w.tags["miss:nothing"] = true
 		default:
 			w.tags["miss:avoidable"] = true
-			if w.strict && !x.postCommit && w.withinCapacity(key) && x.dist <= scMaxDepth {
+			if w.strict && w.withinCapacity(key) && x.dist <= scMaxDepth {
 				w.fail("lookup missed but %s holds value %s and no capacity was exceeded", x.src, x.e.val)
 				w.setFinding("")
 			}
@@ -474,7 +474,7 @@ func (w *scWorld) step(i int, op string) string {
 		out := guard(func() string { return w.outGet(t.tc.Get(f[2])) })
 		sb := t.qhash
 		if t.bid != "" {
-			sb = w.bh[t.bid].prev
+			sb = w.bh[t.bid].base()
 		}
 		w.judge(out, x, f[2], sb, x.src == "chain" || x.src == "own-committed")
 		return out
@@ -519,7 +519,7 @@ func (w *scWorld) step(i int, op string) string {
 		b := getB(f[1])
 		x := w.expectBlock(b, f[2])
 		out := guard(func() string { return w.outGet(b.bc.Get(f[2])) })
-		w.judge(out, x, f[2], b.prev, x.src == "chain" || x.src == "own-committed")
+		w.judge(out, x, f[2], b.base(), x.src == "chain" || x.src == "own-committed")
 		return out
 	case "bcommit":
 		need(2)
